@@ -835,12 +835,12 @@ Theorem rename_refines (w : world) p ti old new ident :
 Proof.
   intros Hp. cbn [lstep step]. destruct (nth_error p ti) as [t|] eqn:Et; [|reflexivity].
   rewrite (get_abs w p ti t Hp Et). rewrite !has_name_abs. unfold k_rename_decision.
+  destruct (lookup old (l_names t)) as [io|]; cbn [negb]; [|split; reflexivity].
   destruct (String.eqb old new) eqn:Eeq.
   - cbn. f_equal. unfold put. destruct w as [pl nf]. cbn [pool nextfam] in *. f_equal.
     rewrite set_nth_same_id; [reflexivity|]. rewrite Hp, nth_error_map, Et. reflexivity.
-  - destruct (lookup old (l_names t)) as [io|]; cbn [negb]; [|split; reflexivity].
-    destruct (lookup new (l_names t)) as [inw|]; [split; reflexivity|].
-    destruct ident; cbn [negb]; [|split; reflexivity].
+  - destruct (lookup new (l_names t)) as [inw|]; [split; reflexivity|].
+    destruct ident; cbn [negb orb]; [|split; reflexivity].
     cbn. reflexivity.
 Qed.
 
